@@ -127,7 +127,12 @@ func (e *Env) onHook(s *server.GCAServer, _ uint64, ev string, args []interface{
 		if ev == "CatchUpPoll" {
 			// not inside a critical section: the state loaded from disk (first
 			// poll) or left by the previous catch-up rotation
-			j["post"] = e.post(s, false)
+			s.VerifLocked(func() {
+				j["post"] = e.post(s, true)
+				e.T.Emit(j)
+			})
+			e.notify(ev)
+			return
 		}
 	case "Rotate":
 		w := e.Week(ToRawWeek(args[0].(server.AllDeviceStats)))
@@ -234,10 +239,10 @@ func (e *Env) Start() error {
 			copy(priv[:], b[32:])
 			e.KR.Add("srv", pub, priv)
 		}
-		e.T.Lock()
-		j["post"] = e.post(srv, false)
-		e.T.EmitLocked(j)
-		e.T.Unlock()
+		srv.VerifLocked(func() {
+			j["post"] = e.post(srv, true)
+			e.T.Emit(j)
+		})
 		return nil
 	}
 	if e.WithDisk {
@@ -532,5 +537,59 @@ func (e *Env) RegisterQuiet(k, signer string) int {
 		gr.Signature = e.SR.Sign(signer, RefRegistrationSigningBytes(e.KR.Pub(k)))
 	}
 	st, _ := e.PostJSON("/api/v1/register-gca", gr)
+	return st
+}
+
+type statsJSON struct {
+	Devices []struct {
+		PublicKey    [32]byte
+		PowerOutputs []int64
+		ImpactRates  []float64
+	}
+	TimeslotOffset uint32
+	Signature      [64]byte
+}
+
+// QueryStats requests the weekly statistics with the raw query parameter
+// value param (tso is its numeric meaning, -1 if it has none) and records
+// the decoded reply.
+func (e *Env) QueryStats(param string, tso int64, neg bool) int {
+	path := "/api/v1/all-device-stats"
+	sep := "?"
+	if param != "<absent>" {
+		path += sep + "timeslot_offset=" + param
+		sep = "&"
+	}
+	if neg {
+		path += sep + "insert_false_negatives=true"
+	}
+	st, body := e.Get(path)
+	j := J{"a": "StatsResp", "param": param, "tso": -1, "neg": neg, "status": st}
+	if tso >= 0 {
+		j["tso"] = Clamp30(uint64(tso))
+	}
+	if st == 200 {
+		var sj statsJSON
+		if err := json.Unmarshal(body, &sj); err != nil {
+			j["status"] = -2
+		} else {
+			w := RawWeek{TimeslotOffset: sj.TimeslotOffset, Signature: sj.Signature}
+			for _, d := range sj.Devices {
+				var rd RawDeviceStats
+				rd.PublicKey = d.PublicKey
+				if len(d.PowerOutputs) != 2016 || len(d.ImpactRates) != 2016 {
+					j["status"] = -3
+					continue
+				}
+				for i := 0; i < 2016; i++ {
+					rd.PowerOutputs[i] = uint64(d.PowerOutputs[i])
+					rd.ImpactRates[i] = d.ImpactRates[i]
+				}
+				w.Devices = append(w.Devices, rd)
+			}
+			j["resp"] = e.Week(w)
+		}
+	}
+	e.T.Emit(j)
 	return st
 }
